@@ -33,6 +33,7 @@ func TestVerifReplay(t *testing.T) {
 		if fn == nil {
 			t.Fatalf("unknown harness %s", rf.Harness)
 		}
+		vfsReset()
 		pmsg, vac := vhRunNative(fn)
 		fmt.Printf("VERIF-RESULT file=%s failures=[%s] vacuous=%v panic=%q\n", f, strings.Join(vFailures, ","), vac, pmsg)
 		if os.Getenv("VERIF_REPLAY_OBS") != "" {
